@@ -2,3 +2,4 @@
 pub mod forked;
 pub mod consts;
 pub mod c16;
+pub mod sched;
